@@ -524,7 +524,7 @@ def expected_ctor(case):
         if int(P["size"]) == 0:
             return "err InvalidCountMinWidth"
         return "ok"
-    if comp == "wtinylfu":
+    if comp in ("wtinylfu", "wtsizes"):
         if int(P["wcap"]) == 0:
             return "err InvalidWindowCacheSize"
         if int(P["qcap"]) == 0:
@@ -533,7 +533,7 @@ def expected_ctor(case):
             return "err InvalidProbationaryCacheSize"
         if int(P["samples"]) == 0:
             return "err InvalidSamples"
-        if fp_bad(P["fp"]):
+        if "fp" in P and fp_bad(P["fp"]):
             return "err InvalidFalsePositiveRatio"
         return "ok"
     return "ok"
